@@ -186,7 +186,8 @@ pub fn generate(seed: u64, tier: Tier) -> Scenario {
     }
     // one scenario in twelve: wallet UTxOs that carry a reference script (spending them costs the tiered fee)
     if r.chance(1, 12) {
-        w.scripts.push(ScriptSpec::Plutus { lang: 2, len: *r.pick(&[10u32, 500, 3000]), fill: 3 });
+        // (two of the 13 000-byte scripts together pass the first 25 KiB tier of the reference-script price)
+        w.scripts.push(ScriptSpec::Plutus { lang: 2, len: *r.pick(&[10u32, 500, 3000, 9000, 13000]), fill: 3 });
         let sid = (w.scripts.len() - 1) as u16;
         for id in off_ids.iter() {
             if r.chance(1, 3) {
